@@ -89,7 +89,7 @@ def run(shard):
     import hcommon as H
     import decode_oracles as D
     H.import_repo()
-    from code_data import _blocks
+    _blocks = H.lib("_blocks")
     holder = {}
 
     # (i) invariant at the hook: found_index must report an override iff index != number of
@@ -236,6 +236,5 @@ def run(shard):
             new_blocks.append(tuple(nb))
         return dataclasses.replace(cd, blocks=tuple(new_blocks))
 
-    import code_data
-    holder["CodeData"] = code_data.CodeData
-    D.drive(shard, "C09", on_decoded, "C09.decoded", variants=3)
+    holder["CodeData"] = H.lib("CodeData")
+    D.drive(shard, "C09", on_decoded, "C09.decoded", variants=3, stress_same=D.same_whole)
